@@ -61,10 +61,38 @@ class Tr:
         self.ret = None
         self.lab = None
         self.pole_seen = False
+        self.tblof = {}  # canonical variable -> unfiltered table it (a filtered version of it) holds
+        self.listelts = {}  # list variable -> canonical element variables
+        self.alias = {}  # local name -> canonical variable (helper inlining); identity at the top level
+        self.prefix = ""  # non-empty while a helper body is being inlined
+        self.helpers = {}  # name -> FunctionDef of module-level functions / methods of the class
+        self.depth = 0
+        self.helper_ret = None
+        self.inplace = set()  # caller variables overwritten in place by conditional rebindings inside a helper
+
+    def r(self, name):
+        """canonical variable a local name stands for"""
+        return self.alias.get(name, name)
+
+    def bindname(self, name, guards=()):
+        """a (re)binding of a local name: the name itself at top level; inside an inlined helper a fresh canonical variable,
+        except for a CONDITIONAL rebinding of a name that already stands for a variable: both paths must then agree on the
+        variable, so the existing one is overwritten in place (checked at the helper's return)"""
+        if not self.prefix:
+            self.alias[name] = name
+            return name
+        if guards and name in self.alias:
+            c = self.alias[name]
+            if not c.startswith(self.prefix):
+                self.inplace.add(c)
+            return c
+        c = f"{self.prefix}{name}"
+        self.alias[name] = c
+        return c
 
     def thr_of(self, node):
-        if isinstance(node, ast.Name) and node.id in self.thr:
-            return self.thr[node.id]
+        if isinstance(node, ast.Name) and self.r(node.id) in self.thr:
+            return self.thr[self.r(node.id)]
         # hc["xi_max"] used inline
         k = self.hc_key(node)
         if k in THR:
@@ -75,7 +103,8 @@ class Tr:
         if (
             isinstance(node, ast.Subscript)
             and isinstance(node.value, ast.Name)
-            and node.value.id == self.hcvar
+            and self.hcvar is not None
+            and self.r(node.value.id) == self.hcvar
             and isinstance(node.slice, ast.Constant)
         ):
             return node.slice.value
@@ -83,7 +112,7 @@ class Tr:
 
     def guard_of(self, test):
         # `if hc_conj:`  /  `if Fn_cov is not None:`
-        if isinstance(test, ast.Name) and self.flags.get(test.id) == "conj":
+        if isinstance(test, ast.Name) and self.flags.get(self.r(test.id)) == "conj":
             return "Guard.conjOn"
         if self.hc_key(test) == "conj":
             return "Guard.conjOn"
@@ -95,8 +124,8 @@ class Tr:
             and isinstance(test.comparators[0], ast.Constant)
             and test.comparators[0].value is None
         ):
-            v = test.left.id
-            tb = dict(self.init).get(v)
+            v = self.r(test.left.id)
+            tb = self.tblof.get(v)
             if tb == "Tbl.fncov":
                 return "Guard.covOn"
         raise Fail(f"unrecognised guard around mask code: {ast.unparse(test)}")
@@ -111,63 +140,73 @@ class Tr:
             tgt, val = st.targets[0], st.value
             # hc = self.run_params.hc
             if isinstance(tgt, ast.Name) and isinstance(val, ast.Attribute) and val.attr == "hc":
-                self.hcvar = tgt.id
+                self.hcvar = self.bindname(tgt.id)
                 return
             if isinstance(tgt, ast.Name) and self.hcvar and self.hc_key(val) is not None:
                 k = self.hc_key(val)
+                c = self.bindname(tgt.id)
                 if k in THR:
-                    self.thr[tgt.id] = THR[k]
+                    self.thr[c] = THR[k]
                 else:
-                    self.flags[tgt.id] = k
+                    self.flags[c] = k
                 return
             for (mod, fn), tbls in POLE_FUNCS.items():
                 if _is_call(val, mod, fn):
-                    if guards:
-                        raise Fail("pole computation under a guard")
+                    if guards or self.prefix:
+                        raise Fail("pole computation under a guard / inside a helper")
                     ns = _names(tgt)
                     if len(ns) != len(tbls):
                         raise Fail(f"{fn}: expected {len(tbls)} results, got {len(ns)}")
                     self.init = list(zip(ns, tbls))
+                    for n_, tb in self.init:
+                        self.tblof[n_] = tb
                     self.tracked |= set(ns)
                     self.pole_seen = True
                     return
             if _is_call(val, "gen"):
                 f = val.func.attr
                 if f in CRIT1:
-                    dT, dM = _names(tgt)
-                    src = _name(val.args[0])
+                    src = self.r(_name(val.args[0]))
                     if f == "HC_conj":
                         c = "Crit.conj"
                     else:
                         c = f"Crit.{CRIT1[f]} {self.thr_of(val.args[1])}"
+                    dTn, dMn = _names(tgt)
+                    dT, dM = self.bindname(dTn, guards), self.bindname(dMn, guards)
                     self.stmts.append((g, f'Stmt.hc1 ({c}) "{dT}" "{dM}" "{src}"'))
                     self.tracked |= {dT, dM}
+                    if src in self.tblof:
+                        self.tblof[dT] = self.tblof[src]
                     return
                 if f == "HC_phi_comp":
-                    d3, d4 = _names(tgt)
-                    src = _name(val.args[0])
+                    src = self.r(_name(val.args[0]))
                     if len(val.args) != 3 or val.keywords:
                         raise Fail("HC_phi_comp call form")
-                    self.stmts.append(
-                        (g, f'Stmt.hcPhi "{d3}" "{d4}" "{src}" {self.thr_of(val.args[1])} {self.thr_of(val.args[2])}')
-                    )
+                    t1, t2 = self.thr_of(val.args[1]), self.thr_of(val.args[2])
+                    d3n, d4n = _names(tgt)
+                    d3, d4 = self.bindname(d3n, guards), self.bindname(d4n, guards)
+                    self.stmts.append((g, f'Stmt.hcPhi "{d3}" "{d4}" "{src}" {t1} {t2}'))
                     self.tracked |= {d3, d4}
                     return
                 if f == "applymask":
-                    dsts = _names(tgt)
-                    l = _name(val.args[0])
+                    l = self.r(_name(val.args[0]))
                     if l not in self.lists:
                         raise Fail(f"applymask on something that is not a tracked list: {l}")
-                    m = _name(val.args[1])
+                    m = self.r(_name(val.args[1]))
+                    elts = self.listelts.get(l, [])
+                    dsts = [self.bindname(d, guards) for d in _names(tgt)]
                     ds = ", ".join(f'"{d}"' for d in dsts)
                     self.stmts.append((g, f'Stmt.apply [{ds}] "{l}" "{m}"'))
                     self.tracked |= set(dsts)
+                    for d, e in zip(dsts, elts):
+                        if e in self.tblof:
+                            self.tblof[d] = self.tblof[e]
                     return
                 if f == "SC_apply":
-                    lab = _name(tgt)
-                    args = [_name(a) for a in val.args[:3]]
-                    if guards:
-                        raise Fail("SC_apply under a guard")
+                    args = [self.r(_name(a)) for a in val.args[:3]]
+                    if guards or self.prefix:
+                        raise Fail("SC_apply under a guard / inside a helper")
+                    lab = self.bindname(_name(tgt))
                     as_ = ", ".join(f'"{a}"' for a in args)
                     self.stmts.append((g, f'Stmt.bind "{lab}" [{as_}]'))
                     self.lab = lab
@@ -176,19 +215,31 @@ class Tr:
                     return
                 raise Fail(f"unknown gen call {f}")
             if isinstance(val, ast.List) and isinstance(tgt, ast.Name) and all(isinstance(e, ast.Name) for e in val.elts) and (
-                set(e.id for e in val.elts) & self.tracked
+                set(self.r(e.id) for e in val.elts) & self.tracked
             ):
-                vs = ", ".join(f'"{e.id}"' for e in val.elts)
-                self.stmts.append((g, f'Stmt.bind "{tgt.id}" [{vs}]'))
-                self.lists.add(tgt.id)
-                self.tracked.add(tgt.id)
+                elts = [self.r(e.id) for e in val.elts]
+                vs = ", ".join(f'"{e}"' for e in elts)
+                l = self.bindname(tgt.id, guards)
+                self.stmts.append((g, f'Stmt.bind "{l}" [{vs}]'))
+                self.lists.add(l)
+                self.listelts[l] = elts
+                self.tracked.add(l)
+                return
+            # a call of a helper (module-level function or method of the class) that carries mask code: inlined
+            h = self._helper_of(val)
+            if h is not None and any(_is_call(n, "gen") for n in ast.walk(h)):
+                self._inline(h, val, tgt, guards)
                 return
             # any other assignment must not touch a tracked variable once poles exist
-            if self.pole_seen and (_assigned(st) & self.tracked):
+            if self.pole_seen and ({self.r(n) for n in _assigned(st)} & self.tracked or _assigned(st) & self.tracked):
                 raise Fail(f"untranslatable assignment to a tracked variable: {ast.unparse(st)[:80]}")
+            for n in _assigned(st):
+                self.bindname(n)
             return
         if isinstance(st, ast.If):
-            touches = any(_is_call(n, "gen") for n in ast.walk(st)) or (self.pole_seen and (_assigned(st) & self.tracked))
+            touches = any(_is_call(n, "gen") or self._helper_of(n) is not None for n in ast.walk(st)) or (
+                self.pole_seen and (_assigned(st) & self.tracked)
+            )
             if not touches:
                 return
             if st.orelse:
@@ -196,16 +247,83 @@ class Tr:
             self.body(st.body, guards + [self.guard_of(st.test)])
             return
         if isinstance(st, ast.Return):
+            if self.prefix:  # return of an inlined helper: the canonical variables of the returned names
+                v = st.value
+                if guards:
+                    raise Fail("return under a guard inside a helper")
+                self.helper_ret = [self.r(n) for n in _names(v)]
+                return
             if not isinstance(st.value, ast.Call):
                 raise Fail("return is not a constructor call")
-            self.ret = [(k.arg, _name(k.value)) for k in st.value.keywords if isinstance(k.value, ast.Name)]
+            self.ret = [(k.arg, self.r(_name(k.value))) for k in st.value.keywords if isinstance(k.value, ast.Name)]
             return
         if isinstance(st, ast.Expr):  # docstring / bare call
-            if self.pole_seen and any(isinstance(n, ast.Name) and n.id in self.tracked for n in ast.walk(st)) and not isinstance(st.value, ast.Constant):
+            if self.pole_seen and any(isinstance(n, ast.Name) and self.r(n.id) in self.tracked for n in ast.walk(st)) and not isinstance(st.value, ast.Constant):
                 raise Fail(f"expression statement touching tracked variables: {ast.unparse(st)[:80]}")
             return
         if self.pole_seen and (_assigned(st) & self.tracked):
             raise Fail(f"untranslatable statement touching tracked variables: {ast.unparse(st)[:80]}")
+
+    def _helper_of(self, val):
+        """FunctionDef of `helper(...)` / `self.helper(...)` when it is defined in the same module / class"""
+        if not isinstance(val, ast.Call):
+            return None
+        f = val.func
+        if isinstance(f, ast.Name):
+            return self.helpers.get(f.id)
+        if isinstance(f, ast.Attribute) and isinstance(f.value, ast.Name) and f.value.id == "self":
+            return self.helpers.get("self." + f.attr)
+        return None
+
+    def _inline(self, h, call, tgt, guards):
+        if self.depth >= 3:
+            raise Fail("helper nesting too deep")
+        params = [a.arg for a in h.args.posonlyargs + h.args.args]
+        if params and params[0] == "self":
+            params = params[1:]
+        if h.args.vararg or h.args.kwarg or h.args.kwonlyargs:
+            raise Fail(f"helper {h.name}: unsupported signature")
+        bound = {}
+        if len(call.args) > len(params):
+            raise Fail(f"helper {h.name}: too many arguments")
+        for p_, a in zip(params, call.args):
+            bound[p_] = a
+        for kw in call.keywords:
+            if kw.arg is None or kw.arg not in params or kw.arg in bound:
+                raise Fail(f"helper {h.name}: bad keyword argument")
+            bound[kw.arg] = kw.value
+        if set(bound) != set(params):
+            raise Fail(f"helper {h.name}: defaults are not supported")
+        saved = (self.alias, self.prefix, self.helper_ret, self.inplace)
+        self.inplace = set()
+        new_alias = {}
+        for p_, a in bound.items():
+            if isinstance(a, ast.Name):
+                new_alias[p_] = self.r(a.id)
+            else:
+                raise Fail(f"helper {h.name}: argument {ast.unparse(a)[:40]} is not a plain name")
+        self.depth += 1
+        self.alias = new_alias
+        self.prefix = f"{saved[1]}{h.name}{self.depth}."
+        self.helper_ret = None
+        body = [s_ for s_ in h.body if not (isinstance(s_, ast.Expr) and isinstance(s_.value, ast.Constant))]
+        self.body(body, guards)
+        ret = self.helper_ret
+        inplace = self.inplace
+        self.alias, self.prefix, self.helper_ret, self.inplace = saved
+        self.depth -= 1
+        if ret is None:
+            raise Fail(f"helper {h.name}: no plain return of names")
+        tnames = _names(tgt)
+        if len(tnames) != len(ret):
+            raise Fail(f"helper {h.name}: {len(ret)} values returned, {len(tnames)} targets")
+        # a caller variable the helper overwrote in place (conditional rebinding of a parameter) must be re-bound by the
+        # caller from the helper's results: otherwise the in-place model would misrepresent Python's call-by-object
+        rebound = {self.r(t) for t in tnames}
+        if not inplace <= rebound:
+            raise Fail(f"helper {h.name}: conditionally rebinds parameters {sorted(inplace - rebound)} that the caller keeps using")
+        for t, c in zip(tnames, ret):
+            self.alias[t] = c  # the caller's name now stands for the helper's variable (no statement needed)
 
 
 def find_run(trees, mod, cls):
@@ -245,6 +363,13 @@ def translate(repo):
     for mod, cls in CLASSES:
         fn, owner = find_run(trees, mod, cls)
         t = Tr()
+        for n_ in trees[mod].body:
+            if isinstance(n_, ast.FunctionDef):
+                t.helpers[n_.name] = n_
+            if isinstance(n_, ast.ClassDef) and n_.name == owner:
+                for m_ in n_.body:
+                    if isinstance(m_, ast.FunctionDef) and m_.name != "run":
+                        t.helpers["self." + m_.name] = m_
         t.body(fn.body, [])
         if not t.pole_seen or t.ret is None or t.lab is None:
             raise Fail(f"{cls}: pole computation / return / SC_apply not found")
